@@ -1342,9 +1342,40 @@ fn rules_d() -> Vec<String> {
 // check / replay
 // ------------------------------------------------------------------------------------------------
 
+/// Cube G: of the eleven one-type rules `form$atom` at most one applies to a request.
+fn check_exclusive(r: &Rq, form: &str, engine_level: bool, l: &mut Local) {
+        let mut applying: Vec<String> = vec![];
+        for atom in NET_NAMES {
+            let rule = format!("{}${}", form, atom);
+            l.evaluations += 1;
+            l.transitions += 1;
+            if real_applies(&rule, false, r, engine_level) == Some(true) {
+                applying.push(rule);
+            }
+        }
+        l.compared += 1;
+        if !applying.is_empty() {
+            l.nontrivial += 1;
+        }
+        if applying.len() > 1 {
+            l.mismatch(Mismatch {
+                sig: format!("c03.exclusive.one-request-satisfies-several-one-type-rules@{}", if engine_level { "engine" } else { "matcher" }),
+                what: format!("request {} type {:?} from {:?} is matched by all of {:?}: a request has one resource type", r.url, r.ty, r.src, applying),
+                case: json!({"rule": applying[0], "url": r.url, "source": r.src, "type": r.ty, "kind": "exclusive", "form": form, "engine_level": engine_level}),
+                size: r.url.len() as u64,
+            });
+        }
+}
+
 fn replay(case: &Value, l: &mut Local) {
     let rule = case["rule"].as_str().unwrap_or("");
     if rule.is_empty() {
+        return;
+    }
+    if case["kind"].as_str() == Some("exclusive") {
+        if let Some(r) = make_rq(case["url"].as_str().unwrap_or(""), case["source"].as_str().unwrap_or(""), case["type"].as_str().unwrap_or("script")) {
+            check_exclusive(&r, case["form"].as_str().unwrap_or("ads"), case["engine_level"].as_bool().unwrap_or(false), l);
+        }
         return;
     }
     match case.get("url").and_then(|u| u.as_str()) {
@@ -1436,6 +1467,27 @@ fn check(ctx: &Ctx) -> i32 {
         check_rule(&rules_f[i as usize], &rq_f, l);
     });
 
+    // ---- cube G: the eleven one-type rules are mutually exclusive -----------------------------
+    // Whatever resource type a request has (also for type strings the option vocabulary cannot
+    // name, such as csp_report, which the cubes above leave Unspecified), it has at most one: of the
+    // rules `p$image`, `p$script`, ... at most one can apply to it; with `$document` added, at
+    // most two (never for a non-document request more than one).
+    let mut rq_g: Vec<Rq> = vec![];
+    for ty in TYPE_STRINGS {
+        for (url, src) in [("https://example.com/ads", "https://other.net/page"), ("https://example.com/ads", "https://example.com/"), ("http://example.com/ads", "")] {
+            if let Some(r) = make_rq(url, src, ty) {
+                rq_g.push(r);
+            }
+        }
+    }
+    ctx.bound("cubeG_requests", rq_g.len());
+    ctx.par_range("cubeG:one-type-rules-are-exclusive", (rq_g.len() * 2 * 2) as u64, 1, |i, l| {
+        let r = &rq_g[i as usize % rq_g.len()];
+        let form = ["ads", "||example.com^"][(i as usize / rq_g.len()) % 2];
+        let engine_level = i as usize / rq_g.len() / 2 == 1;
+        check_exclusive(r, form, engine_level, l);
+    });
+
     // ---- cube E: long initiator-domain lists ---------------------------------------------------
     // every subset of size 3..=8 of a 10-domain pool, once as an all-positive and once as an
     // all-negated list (the union pre-filter of check_options only starts to matter with several
@@ -1482,7 +1534,7 @@ fn check(ctx: &Ctx) -> i32 {
 
     ctx.finish(
         "model_checking",
-        "A: 6 pattern forms x every purely positive and purely negated list over the 11 type atoms (quick: 2048 positive + 63 negated over 6 atoms) x with/without document x 7 party spellings x exception x important (thorough: options also in reversed order), each against 25 type strings x 6 schemes x {third-party, first-party, absent} initiators (scheme-pinned forms additionally against a URL carrying http/https/ws as path tokens, 6 type strings); B: 79 ordered domain lists over {a.com, sub.a.com, b.com} x domain=/from= x party x 4 (thorough 10) type lists x {ads, *} x exception, against 6 initiators x first-/third-party host x 4 schemes x 4 types; C: full-regex literal rules x match-case x option, against URL case variants, plus match-case on non-regex rules; D: 18 option spellings singly and in pairs, all option orders of 4 option sets; F: 12 pattern shapes next to `||host^` (right pipe, path, missing caret, left pipe, unanchored) and the two `||host^` rules themselves x 12 option sets x exception, against document / main_frame / 4 other types x 7 URLs x 4 initiators (only `||host^` without a type option applies to documents); E: every subset of 3..8 of a 10-domain pool as an all-positive and as an all-negated domain= list, against each listed domain, three sub-domains of each, unrelated and absent initiators. Every rule is evaluated with NetworkFilter::matches and on a single-rule engine. A case is non-trivial when the reference or the implementation says the rule applies; states = rules parsed + engines built, transitions = (rule, request, observation point) executions, traces_validated = executions compared with the reference.",
+        "A: 6 pattern forms x every purely positive and purely negated list over the 11 type atoms (quick: 2048 positive + 63 negated over 6 atoms) x with/without document x 7 party spellings x exception x important (thorough: options also in reversed order), each against 25 type strings x 6 schemes x {third-party, first-party, absent} initiators (scheme-pinned forms additionally against a URL carrying http/https/ws as path tokens, 6 type strings); B: 79 ordered domain lists over {a.com, sub.a.com, b.com} x domain=/from= x party x 4 (thorough 10) type lists x {ads, *} x exception, against 6 initiators x first-/third-party host x 4 schemes x 4 types; C: full-regex literal rules x match-case x option, against URL case variants, plus match-case on non-regex rules; D: 18 option spellings singly and in pairs, all option orders of 4 option sets; F: 12 pattern shapes next to `||host^` (right pipe, path, missing caret, left pipe, unanchored) and the two `||host^` rules themselves x 12 option sets x exception, against document / main_frame / 4 other types x 7 URLs x 4 initiators (only `||host^` without a type option applies to documents); G: for every request type string (also those no option can name), of the eleven one-type rules at most one applies; E: every subset of 3..8 of a 10-domain pool as an all-positive and as an all-negated domain= list, against each listed domain, three sub-domains of each, unrelated and absent initiators. Every rule is evaluated with NetworkFilter::matches and on a single-rule engine. A case is non-trivial when the reference or the implementation says the rule applies; states = rules parsed + engines built, transitions = (rule, request, observation point) executions, traces_validated = executions compared with the reference.",
         &[
             "Unspecified (executed, not compared): mixed positive+negated type lists; positive domain= list or party option with an absent initiator; request type strings csp_report and unknown ('fetch'); unsupported schemes at matcher level (asserted at the engine only)",
             "exception rules are observed on single-rule engines through check_network_request_subset(req, true, true), blocking rules through check_network_request",
